@@ -235,6 +235,10 @@ def run(ctx):
     if not viols:
         chk.ok(Pl, q, 'retry loop', detail='every normal exit has an opened stream; FileNotFoundError re-enters loosen_object or raises')
 
+    from .common import transaction_premises
+    RDB = chk.rule('C04.Pdb', 'transaction premises: rows become visible to other connections only at COMMIT; WAL snapshots (explicit BEGIN, no autocommit, only PRAGMA journal_mode=wal)', 1)
+    transaction_premises(ctx, chk, RDB)
+
     return chk.finish(
         explanation=('Decides, from the source, the code-side premises of the protocol\'s safety argument (DESIGN 5/C04): writer publishes complete files '
                      'atomically and nobody removes its directories; the packer makes bytes visible before the row and removes the loose file only after '
